@@ -10,23 +10,24 @@
 
        forall c ops, wf c ops = true -> oracle c ops (lrun c ops) = true
 
-   It is FALSE of the faithful model (and of the code) on three input classes, each with a witness:
-     C17_invalid_refused_early_refuted   (F1) version 3 + RSA1024 key is refused only inside listen(), after the bind
-     C17_string_route_refuted            (F2) onion:...hiddenServiceDir=..:singleHop=true contacts/launches Tor, then refuses
+   It is FALSE of the faithful model (and of the code) on one input class, with a witness:
      C17_disconnect_in_wait_refuted      (F3) connection lost during the descriptor wait: listen() never fires, listener stays
+   Repaired in /repo and now covered by the theorems (regression anchors on the old witnesses):
+     C17_late_refusal_now_accepted       (was F1, fix 64ae05b) version 3 + RSA1024 key: constructor and string parser refuse at once
+     C17_string_route_now_accepted       (was F2, fix d08dcab) onion:...hiddenServiceDir=..:singleHop=true refused by the parser
    What IS proved:
      for ALL configurations, ports and histories (unbounded):
        C17_no_leak_on_failure              after listen() has failed no local listener is open
        C17_loopback_and_mapping            at most one bind, on 127.0.0.1; at most one creating command, after a
                                            successful bind, forwarding exactly public -> 127.0.0.1:<bound port>
        C17_resolves_after_descriptor       listen() fires in exactly the step in which C15's create() fires, with the
-                                           corresponding outcome (so C15's theorems transfer: see the corollary)
+                                           corresponding outcome (so C15's theorems transfer)
      for the whole (finite) option space of the three routes (972 + 324 + 2100 requests), any ports, any script:
-       C17_invalid_refused_early_partial   an invalid combination outside F1/F2 is refused by the constructing call
-                                           and nothing at all has happened by then
+       C17_invalid_refused_early           an invalid combination is refused by the constructing call and nothing at
+                                           all has happened by then (and C17_valid_constructed: a valid one is constructed)
      for the finite product  option space x {config ready, pending} x {bind ok, fails} x 16 fault scripts,
      public port 80, bound port 45017 (bounds stated in the theorem):
-       C17_oracle_on_fault_product_partial the full statement outside F1/F2/F3 *)
+       C17_oracle_on_fault_product_partial the full statement outside F3 *)
 From Coq Require Import List Bool Arith NArith.
 From TxVerif Require Import Lib.ListSet Spec.C15 Spec.C17 Model.DescUpload Model.Listen Proofs.C15Proofs Proofs.C17Proofs.
 Import ListNotations.
@@ -48,37 +49,49 @@ Theorem C17_resolves_after_descriptor : forall c q ops m op pp oo,
 Proof. intros c q ops. exact (listen_follows_create c q ops). Qed.
 Print Assumptions C17_resolves_after_descriptor.
 
-Theorem C17_invalid_refused_early_partial : forall r pub bound pend bind ops,
+Theorem C17_invalid_refused_early : forall r pub bound pend bind ops,
   let c := {| g_route := r; g_pub := pub; g_bound := bound; g_pending := pend; g_bind_ok := bind |} in
-  valid c = false -> late_refusal_v3_rsa_key c = false -> string_refused_after_tor_started c = false ->
-  lrun c ops = [{| l_evs := [ORefused]; l_open := 0 |}].
+  valid c = false -> lrun c ops = [{| l_evs := [ORefused]; l_open := 0 |}].
 Proof. exact invalid_refused_early. Qed.
-Print Assumptions C17_invalid_refused_early_partial.
+Print Assumptions C17_invalid_refused_early.
+
+Theorem C17_valid_constructed : forall r, accepted_ok r = true.
+Proof. exact accepted_ok_all. Qed.
+Print Assumptions C17_valid_constructed.
 
 Theorem C17_oracle_on_fault_product_partial : forall r pend bind ops,
   In ops fault_scripts ->
   let c := {| g_route := r; g_pub := 80; g_bound := 45017; g_pending := pend; g_bind_ok := bind |} in
-  wf c ops = true -> late_refusal_v3_rsa_key c = false -> string_refused_after_tor_started c = false ->
-  disconnect_while_waiting c ops = false ->
+  wf c ops = true -> disconnect_while_waiting c ops = false ->
   oracle c ops (lrun c ops) = true.
 Proof. exact oracle_on_product. Qed.
 Print Assumptions C17_oracle_on_fault_product_partial.
 
-Theorem C17_invalid_refused_early_refuted :
-  exists c ops, wf c ops = true /\ oracle c ops (lrun c ops) = false.
-Proof. exact late_refusal_refuted. Qed.
-Print Assumptions C17_invalid_refused_early_refuted.
-
-Theorem C17_string_route_refuted :
-  exists c ops, wf c ops = true /\ late_refusal_v3_rsa_key c = false /\ oracle c ops (lrun c ops) = false.
-Proof. exact string_started_tor_refuted. Qed.
-Print Assumptions C17_string_route_refuted.
-
 Theorem C17_disconnect_in_wait_refuted :
-  exists c ops, wf c ops = true /\ late_refusal_v3_rsa_key c = false /\ string_refused_after_tor_started c = false
-    /\ oracle c ops (lrun c ops) = false.
+  exists c ops, wf c ops = true /\ oracle c ops (lrun c ops) = false.
 Proof. exact disconnect_in_wait_refuted. Qed.
 Print Assumptions C17_disconnect_in_wait_refuted.
+
+(* ---- regression anchors: the witnesses of the repaired findings are refused at once now ---- *)
+Theorem C17_late_refusal_now_accepted :
+  let c := cfg_of (RCtor {| a_eph := TNone; a_hsdir := false; a_auth := ANone; a_stealth_kw := false; a_key := KRsa;
+                            a_ver := V3; a_single := TNone |}) in
+  let cs := cfg_of (RStr {| s_hsd := false; s_key := KRsa; s_keyfile := KFNone; s_ver := SV3; s_hop := SHNone;
+                            s_control := false |}) in
+  let cf := cfg_of (RStr {| s_hsd := false; s_key := KNone; s_keyfile := KFPem; s_ver := SV3; s_hop := SHNone;
+                            s_control := true |}) in
+  lrun c [] = refused_only /\ oracle c [] (lrun c []) = true
+  /\ lrun cs [] = refused_only /\ oracle cs [] (lrun cs []) = true
+  /\ lrun cf [] = refused_only /\ oracle cf [] (lrun cf []) = true.
+Proof. exact late_refusal_now_accepted. Qed.
+Print Assumptions C17_late_refusal_now_accepted.
+
+Theorem C17_string_route_now_accepted :
+  let c := cfg_of (RStr {| s_hsd := true; s_key := KNone; s_keyfile := KFNone; s_ver := SVNone; s_hop := SHtrue;
+                           s_control := false |}) in
+  lrun c [] = refused_only /\ oracle c [] (lrun c []) = true.
+Proof. exact string_started_tor_now_accepted. Qed.
+Print Assumptions C17_string_route_now_accepted.
 
 (* the hypotheses are satisfiable by a non-trivial case: a filesystem service with stealth authentication
    whose configuration arrives late; one upload fails, the other succeeds; then the user stops the port *)
